@@ -1,10 +1,17 @@
 #!/bin/bash
 # Build the framework offline from files on disk: regenerate the translated Lean files from /repo,
-# build the compiled driver and every property module.
-set -e
+# build the compiled driver and every property module.  A property whose translation or proof no longer
+# builds is reported by its own check (./check Cxx); it must not prevent the other checks from being set up.
 cd "$(dirname "$0")"
 export PYTHONPATH="$(pwd)"
-/venv/bin/python -m translator.all
+/venv/bin/python -m translator.all || echo "setup: some extractor failed (reported again by the checks that depend on it)"
 cd lean
-lake build driver
-lake build
+lake build driver || exit 1
+lake build || {
+  echo "setup: full library build failed; building the property modules one by one"
+  for f in PandoraModel/Properties/C*.lean; do
+    m="PandoraModel.Properties.$(basename "$f" .lean)"
+    lake build "$m" > /dev/null 2>&1 || echo "setup: $m does not build"
+  done
+}
+exit 0
